@@ -126,9 +126,9 @@ class Result:
         if len(self.samples) < limit:
             self.samples.append(s)
 
-    def disagree(self, where, case, impl, model):
+    def disagree(self, where, case, impl, model, signature=None):
         if len(self.disagreements) < 50:
-            self.disagreements.append({"where": where, "case": case, "impl": impl, "model": model})
+            self.disagreements.append({"where": where, "case": case, "impl": impl, "model": model, "signature": signature})
         else:
             self.count("disagreements_dropped")
 
